@@ -305,6 +305,12 @@ def structural_type(t):
         r = RET_TYPES.get(t[1])
         if r:
             return frozenset([r])
+        if t[1] == "method:read" and len(t[2]) >= 1 and isinstance(t[2][0], tuple) and len(t[2][0]) == 4 and t[2][0][0] == "call" and t[2][0][1] == "builtin:open":
+            # <open(path, mode)>.read(): bytes in binary mode, str in text mode
+            h = t[2][0]
+            mode = h[2][1] if len(h[2]) > 1 else dict(h[3]).get("mode", ("const", "str", "r"))
+            if isinstance(mode, tuple) and len(mode) == 3 and mode[0] == "const" and isinstance(mode[2], str):
+                return frozenset(["bytes" if "b" in mode[2] else "str"])
         return None
     if k == "global":
         q = t[1]
@@ -556,6 +562,30 @@ class Walker:
                 outs.append((s2, k2, p2))
         return outs
 
+    def _collect_exact(self, gen, s, node):
+        """the values a generator yields, as a tuple per path - only when no value is yielded from
+        inside a loop of unknown length (None otherwise)"""
+        base = getattr(self.eng, "symloop_depth", 0)
+        symbolic = [False]
+
+        def on_yield(s_c, v):
+            if getattr(self.eng, "symloop_depth", 0) > base:
+                symbolic[0] = True
+            s_c.env["$coll"] = s_c.env.get("$coll", ()) + (v,)
+            return [(s_c, "fall", None)]
+
+        s = s.copy()
+        s.env.pop("$coll", None)
+        outs = []
+        for s2, k2, p2 in self._run_generator(gen, s, on_yield, node):
+            if k2 == "exhausted":
+                vals = s2.env.pop("$coll", ())
+                outs.append((s2, "val", ("lit", "tuple", tuple(vals), None)))
+            else:
+                s2.env.pop("$coll", None)
+                outs.append((s2, k2, p2))
+        return None if symbolic[0] else outs
+
     def _collect_generator(self, gen, s, node, kind):
         """list(gen) / tuple(gen) / set(gen) / dict(gen) / sorted(gen): an accumulator filled by a
         loop over the generator -> [(state, 'val', accumulator term) | other outcomes]"""
@@ -643,6 +673,18 @@ class Walker:
             else:
                 s.env[t.id] = val
             return [(s, "fall", None)]
+        if isinstance(t, (ast.Tuple, ast.List)) and isinstance(val, tuple) and len(val) == 3 and val[0] == "gen":
+            exact = self._collect_exact(val, s, node)
+            if exact is not None:
+                outs = []
+                for s2, k2, v2 in exact:
+                    if k2 != "val":
+                        outs.append((s2, k2, v2))
+                    elif len(v2[2]) != len(t.elts) and not any(isinstance(x, ast.Starred) for x in t.elts):
+                        self.rz(outs, s2, node, "ValueError", "unpacking %d values into %d names" % (len(v2[2]), len(t.elts)), [])
+                    else:
+                        outs.extend(self._assign_target(t, v2, s2, node))
+                return outs
         if isinstance(t, (ast.Tuple, ast.List)):
             outs = [(s, "fall", None)]
             for i, e in enumerate(t.elts):
@@ -1235,7 +1277,11 @@ class Walker:
             if k0 != "fall":
                 body_outs.append((s0, k0, p0))
             else:
-                body_outs.extend(self.block(body, s0))
+                self.eng.symloop_depth = getattr(self.eng, "symloop_depth", 0) + 1
+                try:
+                    body_outs.extend(self.block(body, s0))
+                finally:
+                    self.eng.symloop_depth -= 1
         normal = None
         body_paths = []
         for s2, k2, p2 in body_outs:
@@ -1281,7 +1327,12 @@ class Walker:
             if k1 == "true":
                 b = s1.copy()
                 b.events = ()
-                for s2, k2, p2 in self.block(n.body, b):
+                self.eng.symloop_depth = getattr(self.eng, "symloop_depth", 0) + 1
+                try:
+                    while_outs = self.block(n.body, b)
+                finally:
+                    self.eng.symloop_depth -= 1
+                for s2, k2, p2 in while_outs:
                     body_paths.append((k2, frozenset(), s2.events, p2, frozenset(s2.facts)))
                     if k2 in ("raise", "return"):
                         s3 = s2.copy()
@@ -1736,6 +1787,9 @@ class Walker:
             self.unsupported(e, "operator")
         cur, outs = self.seq([e.left, e.right], st)
         for s, (l, r) in cur:
+            if op == "+" and is_const(l) and is_const(r) and type(l[2]) is type(r[2]) and isinstance(l[2], (str, bytes)):
+                outs.append((s, "val", C(l[2] + r[2])))  # constant folding: "r" + "b"
+                continue
             t = ("binop", op, l, r)
             tl, tr = s.types(l), s.types(r)
             res = None
